@@ -30,6 +30,7 @@ def run(ctx):
                 prelude=convlib.base_prelude(base_sets, ftypes))
     cases = []      # (cid, slot, args)
     mlines = []     # model lines
+    alines = []     # accuracy-premise lines
     meta = {}       # cid -> dict
     nvals = 14 if quick else 40
     for ty in ftypes:
@@ -54,6 +55,9 @@ def run(ctx):
                         op = "new" if d == "n" else "get"
                         mlines.append(f"{cid} {ty} std ({op} {T.sexp_list(U)} {T.zlist(q['dim'])} {T.sexp(u['coef'])} {T.sexp(u['const'])} {vb})")
                         meta[cid] = (ty, bs, q["module"], u["name"], d, vname, vb, slot)
+                        if u["const"] is None:
+                            # the accuracy theorems (c03_new/get_relative_error): Safe premise and operation count, decided by the extracted safe_q
+                            alines.append(f"{cid} a{ty[1:]} std ({op} {T.sexp_list(U)} {T.zlist(q['dim'])} {T.sexp(u['coef'])} - {vb})")
                 # published coefficient / constants
                 for d in ("c", "ka", "ks"):
                     cid = f"c{len(cases)}"
@@ -68,7 +72,8 @@ def run(ctx):
     ctx.log("harness built; running implementation and model")
     impl = h.run(cases)
     model = coqbuild.run_model(mlines)
-    ctx.log(f"implementation answered {len(impl)}, model answered {len(model)}")
+    acc = coqbuild.run_model(alines)
+    ctx.log(f"implementation answered {len(impl)}, model answered {len(model)}, accuracy premises decided for {len(acc)}")
 
     # published coefficients (what the compiled crate reports)
     pub = {}
@@ -89,6 +94,8 @@ def run(ctx):
     distinct = set()
     evals = 0
     coef_cache = {}
+    thm = {"offset_free_cases": 0, "premise_holds": 0, "instances_checked": 0, "max_ops": 0}
+    thm_fail = []
     for cid, slot, args in cases:
         ty, bs, qm, un, d, vname, vb, _ = meta[cid]
         u = t.unit(qm, un)
@@ -108,6 +115,26 @@ def run(ctx):
         r = convlib.spec_check(t, pub, ty, bs, qm, un, d, vb, got)
         if r is not None and not r[0]:
             spec_fail.append((cid, r))
+        # the proved bound itself: where the extracted safe_q decides the Safe premise, the implementation's answer must be within
+        # (H^n - 1) |exact| with n the theorem's operation count - no extra slack
+        a_ = acc.get(cid)
+        if a_ is not None:
+            thm["offset_free_cases"] += 1
+            sf, nops = (a_.split() + ["0", "0"])[:2]
+            if sf == "1":
+                thm["premise_holds"] += 1
+                ec = convlib.exact_conv(t, pub, ty, bs, qm, un, d, FC.bits_to_frac(vb, ty))
+                if ec is not None and got not in (None, "PANIC", "nan") and not FC.is_inf_bits(int(got, 16), ty):
+                    ex = ec[0]
+                    u_ = Fraction(1, 2 ** FC.FMT[ty]["prec"])
+                    bound = ((1 / (1 - u_)) ** int(nops) - 1) * abs(ex)
+                    g = FC.bits_to_frac(int(got, 16), ty)
+                    thm["instances_checked"] += 1
+                    thm["max_ops"] = max(thm["max_ops"], int(nops))
+                    if abs(g - ex) > bound:
+                        thm_fail.append((cid, (False, f"outside the PROVED bound: |impl - exact| = {float(abs(g - ex)):.3e} > (H^{nops} - 1)|exact| = {float(bound):.3e}")))
+                else:
+                    thm_fail.append((cid, (False, f"Safe premise holds but the implementation answered {got}")))
     # coefficient / constant validation through the model (runner coefNN)
     clines = []
     for cid, slot, args in cases:
@@ -154,6 +181,8 @@ def run(ctx):
                        "implementation": got, "model": want, "count": len(coef_bad)}, no_input=False)
     for cid, r in spec_fail[:5]:
         ctx.violation(replay_case(cid, {"kind": "spec", "spec": "C03 ulp bound", "detail": r[1]}))
+    for cid, r in thm_fail[:3]:
+        ctx.violation(replay_case(cid, {"kind": "theorem-instance", "spec": "c03_new_relative_error / c03_get_relative_error instantiated on this case", "detail": r[1]}))
     if disagreements and not spec_fail:
         # correspondence broken but every implementation answer still satisfies the spec checker
         cid = disagreements[0]
@@ -194,6 +223,7 @@ def run(ctx):
     cov["slots"] = len(h.slots)
     cov["histogram"] = {f"{a}/{b}/{'new' if c == 'n' else 'get'}": n for (a, b, c), n in sorted(hist.items())}
     cov["spec_checked"] = convlib.SPEC_STATS.copy()
+    cov["accuracy_theorem_instances"] = dict(thm, failures=len(thm_fail))
     some = ctx.rng.fork("samples").sample([c for c in cases if meta[c[0]][4] in ("n", "g")], 6)
     cov["samples"] = [{"unit": f"{meta[c][2]}::{meta[c][3]}", "base": meta[c][1], "storage": meta[c][0], "dir": meta[c][4],
                        "value": FC.hexbits(meta[c][6], meta[c][0]), "implementation": impl.get(c),
